@@ -318,7 +318,7 @@ static std::string async_roundtrip(Env &e, bool ha) {
 		pending[i] = nullptr; // owned by the service
 		accepted++;
 	}
-	for (int round = 0; round < 40 && returned < accepted; round++) {
+	for (int round = 0; round < 120 && returned < accepted; round++) {   // 36 s: well beyond the 10 s send and receive timeouts of every sub-request
 		KSI_AsyncHandle *h = nullptr; size_t waiting = 0;
 		uint64_t fired0 = A.fired;
 		res = KSI_AsyncService_run(svc, &h, &waiting);
@@ -460,6 +460,133 @@ done:
 	return out;
 }
 
+// two levels of local aggregation prepended one after the other to a signature of the outer root (leaves above level 0): the
+// second append works on a signature whose first aggregation chain is no longer the lowest one
+static std::string op_prepend_twice(Env &e) {
+	std::string out; int res;
+	KSI_TreeBuilder *ta = nullptr, *tb = nullptr;
+	KSI_TreeLeafHandle *ha[2] = {nullptr, nullptr}, *hb[2] = {nullptr, nullptr};
+	KSI_AggregationHashChain *ca = nullptr, *cb = nullptr;
+	KSI_Signature *s0 = nullptr, *s1 = nullptr, *s2 = nullptr;
+	KSI_SignatureBuilder *sb = nullptr;
+	KSI_DataHash *dh = nullptr, *doc = nullptr;
+	std::string ra, rb; int la = 0, lb = 0;
+	const std::string docimp = imprint(1, "prepend-twice-doc");
+	CK(KSI_TreeBuilder_new(e.ctx, KSI_HASHALG_SHA2_256, &ta), "treeA");
+	for (int i = 0; i < 2; i++) {
+		dh = sdk::hash_from_imprint(e.ctx, i == 0 ? docimp : imprint(1, "prepend-twice-neighbour-a"));
+		if (!dh) { out = E(KSI_OUT_OF_MEMORY, "hash"); goto done; }
+		res = KSI_TreeBuilder_addDataHash(ta, dh, 1, &ha[i]);
+		KSI_DataHash_free(dh); dh = nullptr;
+		if (res != KSI_OK) { out = E(res, "addA"); goto done; }
+	}
+	CK(KSI_TreeBuilder_close(ta), "closeA");
+	ra = sdk::imprint_of(ta->rootNode->hash); la = (int)ta->rootNode->level;
+	CK(KSI_TreeBuilder_new(e.ctx, KSI_HASHALG_SHA2_256, &tb), "treeB");
+	for (int i = 0; i < 2; i++) {
+		dh = sdk::hash_from_imprint(e.ctx, i == 0 ? ra : imprint(1, "prepend-twice-neighbour-b"));
+		if (!dh) { out = E(KSI_OUT_OF_MEMORY, "hash"); goto done; }
+		res = KSI_TreeBuilder_addDataHash(tb, dh, i == 0 ? la : 0, &hb[i]);
+		KSI_DataHash_free(dh); dh = nullptr;
+		if (res != KSI_OK) { out = E(res, "addB"); goto done; }
+	}
+	CK(KSI_TreeBuilder_close(tb), "closeB");
+	rb = sdk::imprint_of(tb->rootNode->hash); lb = (int)tb->rootNode->level;
+	if (ra.empty() || rb.empty()) { out = E(KSI_OUT_OF_MEMORY, "root"); goto done; }
+	{
+		// the aggregator's signature of the outer root (made by the reference world, not by the SDK)
+		World w2 = e.bw.world; ReplyMeta m;
+		std::string bytes = w2.make_signature(rb, (uint64_t)lb, 4242, true, m, 2);
+		CK(KSI_Signature_parse(e.ctx, (unsigned char *)bytes.data(), bytes.size(), &s0), "parse");
+	}
+	CK(KSI_TreeLeafHandle_getAggregationChain(hb[0], &cb), "chainB");
+	CK(KSI_SignatureBuilder_openFromSignature(s0, &sb), "open1");
+	CK(KSI_SignatureBuilder_setAggregationChainStartLevel(sb, (KSI_uint64_t)la), "start1");
+	CK(KSI_SignatureBuilder_appendAggregationChain(sb, cb), "append1");
+	CK(KSI_SignatureBuilder_close(sb, (KSI_uint64_t)la, &s1), "close1");
+	KSI_SignatureBuilder_free(sb); sb = nullptr;
+	CK(KSI_TreeLeafHandle_getAggregationChain(ha[0], &ca), "chainA");
+	CK(KSI_SignatureBuilder_openFromSignature(s1, &sb), "open2");
+	CK(KSI_SignatureBuilder_setAggregationChainStartLevel(sb, 1), "start2");
+	CK(KSI_SignatureBuilder_appendAggregationChain(sb, ca), "append2");
+	CK(KSI_SignatureBuilder_close(sb, 1, &s2), "close2");
+	doc = sdk::hash_from_imprint(e.ctx, docimp);
+	if (!doc) { out = E(KSI_OUT_OF_MEMORY, "hash"); goto done; }
+	CK(KSI_Signature_verifyWithPolicy(s2, doc, 1, KSI_VERIFICATION_POLICY_INTERNAL, NULL), "verify");
+	{
+		std::string bytes = sdk::serialize(s2);
+		SigView v; SigFacts f;
+		if (!bytes.empty() && parse_signature(bytes, v)) f = evaluate(v);
+		out = bytes.empty() ? E(KSI_OUT_OF_MEMORY, "serialize") : f.consistent && f.input_hash == docimp && v.agg.size() >= 3 ? "OK:valid:" + std::to_string(v.agg.size()) : "INVALID";
+	}
+done:
+	KSI_DataHash_free(dh); KSI_DataHash_free(doc);
+	KSI_SignatureBuilder_free(sb);
+	KSI_Signature_free(s0); KSI_Signature_free(s1); KSI_Signature_free(s2);
+	KSI_AggregationHashChain_free(ca); KSI_AggregationHashChain_free(cb);
+	for (int i = 0; i < 2; i++) { KSI_TreeLeafHandle_free(ha[i]); KSI_TreeLeafHandle_free(hb[i]); }
+	KSI_TreeBuilder_free(ta); KSI_TreeBuilder_free(tb);
+	return out;
+}
+
+// extending to a publication record (KSI_Signature_extend): the record is put into the extended signature
+static std::string extend_to_publication_once(Env &e) {
+	std::string out; int res;
+	KSI_PublicationData *pd = nullptr; KSI_PublicationRecord *prec = nullptr; KSI_Integer *t = nullptr; KSI_DataHash *rh = nullptr;
+	KSI_Signature *ext = nullptr;
+	uint64_t pub = e.bw.world.head();
+	CK(KSI_PublicationData_new(e.ctx, &pd), "pubdata");
+	CK(KSI_Integer_new(e.ctx, pub, &t), "int");
+	CK(KSI_PublicationData_setTime(pd, t), "settime"); t = nullptr;
+	rh = sdk::hash_from_imprint(e.ctx, e.bw.world.cal.root(pub));
+	if (!rh) { out = E(KSI_OUT_OF_MEMORY, "hash"); goto done; }
+	CK(KSI_PublicationData_setImprint(pd, rh), "setimprint"); rh = nullptr;
+	CK(KSI_PublicationRecord_new(e.ctx, &prec), "pubrec");
+	CK(KSI_PublicationRecord_setPublishedData(prec, pd), "setdata"); pd = nullptr;
+	{
+		CallEnv ce; ce.subseed = 78; ce.chunk = 197;
+		e.bw.arm(ce);
+		res = KSI_Signature_extend(e.sig, e.ctx, prec, &ext);
+		e.bw.disarm();
+		if (res != KSI_OK) { out = E(res, "extend"); goto done; }
+		std::string bytes = sdk::serialize(ext);
+		SigView v; SigFacts f;
+		if (!bytes.empty() && parse_signature(bytes, v)) f = evaluate(v);
+		out = bytes.empty() ? E(KSI_OUT_OF_MEMORY, "serialize") : f.consistent && f.input_hash == e.hash && v.has_cal && v.cal.pub == pub && v.has_pub ? "OK:valid" : "INVALID";
+	}
+done:
+	KSI_Signature_free(ext);
+	KSI_PublicationRecord_free(prec); KSI_PublicationData_free(pd); KSI_Integer_free(t); KSI_DataHash_free(rh);
+	return out;
+}
+
+// a signature whose calendar chain changes the hash algorithm in the middle (a SHA-512 round root among the right siblings):
+// parsing verifies it internally, which folds the calendar chain and has to replace its hasher at the second link
+static std::string op_calendar_algorithm_change(Env &e) {
+	std::string out; int res;
+	KSI_Signature *s = nullptr; KSI_DataHash *doc = nullptr;
+	World w2 = e.bw.world; ReplyMeta m;
+	const std::string docimp = imprint(1, "calendar-algorithm-change-doc");
+	w2.next_round = (w2.next_round + 3) & ~(uint64_t)3;
+	uint64_t t = w2.next_round;
+	std::string bytes = w2.make_signature(docimp, 0, 555, false, m);
+	w2.cal.set_leaf(t + 3, imprint(5, "a SHA-512 round root"));
+	CalChain cc = w2.cal.chain(t, t + 3);
+	Tlv top; size_t u;
+	if (!Tlv::parse1(bytes, 0, top, u) || !top.expand()) return "HARNESS";
+	top.add(cc.enc());
+	bytes = top.enc();
+	CK(KSI_Signature_parse(e.ctx, (unsigned char *)bytes.data(), bytes.size(), &s), "parse");
+	doc = sdk::hash_from_imprint(e.ctx, docimp);
+	if (!doc) { out = E(KSI_OUT_OF_MEMORY, "hash"); goto done; }
+	CK(KSI_Signature_verifyWithPolicy(s, doc, 0, KSI_VERIFICATION_POLICY_INTERNAL, NULL), "verify");
+	out = sdk::serialize(s) == bytes ? "OK:verified" : "E:serialize";
+done:
+	KSI_DataHash_free(doc);
+	KSI_Signature_free(s);
+	return out;
+}
+
 struct Case { const char *name; std::function<std::string(Env &)> op; };
 
 static std::vector<Case> &catalogue() {
@@ -486,11 +613,14 @@ static std::vector<Case> &catalogue() {
 		{"tree_builder_23_leaves_with_metadata", op_treebuilder_big},
 		{"verify_calendar_based_extender_error_status", op_verify_calendar_ext_error},
 		{"async_http_service_3_requests_in_sequence", async_http_sequence},
+		{"prepend_two_local_chains_with_levels", op_prepend_twice},
+		{"extend_blocking_to_publication_record", extend_to_publication_once},
+		{"verify_internal_calendar_algorithm_change", op_calendar_algorithm_change},
 	};
 	return c;
 }
 
-struct Outcome1 { std::string r1, r2; uint64_t n = 0, fired = 0, leaked = 0, bad_free = 0; bool setup_ok = true; std::string leak_sites, fail_site; };
+struct Outcome1 { std::string r1, r2; uint64_t n = 0, fired = 0, leaked = 0, bad_free = 0; bool setup_ok = true; std::string leak_sites, fail_site, all_sites; };
 
 // transport variants: cfg "variant" bit0 = http for blocking calls
 static Outcome1 run_case(size_t k, const std::vector<uint64_t> &fail_at, uint64_t fail_from, int variant) {
@@ -531,6 +661,7 @@ static Outcome1 run_case(size_t k, const std::vector<uint64_t> &fail_at, uint64_
 	o.r1 = c.op(e);
 	A.armed = false;
 	o.n = A.count; o.fired = A.fired; o.fail_site = A.last_fail_site;
+	for (auto &x : A.fail_sites) o.all_sites += (o.all_sites.empty() ? "" : " + ") + x;
 	// the same operation again, without the fault, on the same context and objects
 	o.r2 = c.op(e);
 	KSI_Signature_free(e.sig);
@@ -601,7 +732,8 @@ struct AllocEngine : run::Engine {
 		else {
 			bool persistent = p.c("fail_from") != 0; // every allocation fails from some point on: no request can be completed any more
 			if (o.r1.compare(0, 5, "LOST:") == 0 && persistent) K.count("outcome.no_progress_under_persistent_failure");
-			else if (o.r1.compare(0, 5, "LOST:") == 0) K.fail("C19", "request-lost-after-failed-allocation", std::string(cn) + "@" + o.fail_site, "%s: after a failed allocation in %s an accepted request was never handed back (%s)", desc.c_str(), o.fail_site.c_str(), o.r1.c_str());
+			// (several failed allocations: the class names all of them - the one that loses the request need not be the last)
+			else if (o.r1.compare(0, 5, "LOST:") == 0) K.fail("C19", "request-lost-after-failed-allocation", std::string(cn) + "@" + (fa.size() > 1 ? "several: " + o.all_sites : o.fail_site), "%s: after a failed allocation in %s an accepted request was never handed back (%s)", desc.c_str(), o.fail_site.c_str(), o.r1.c_str());
 			else if (o.r1.compare(0, 10, "SWALLOWED:") == 0 && !persistent && fa.size() == 1) K.fail("C19", "failed-allocation-swallowed", std::string(cn) + "@" + o.fail_site, "%s: the call in which the allocation in %s failed reported nothing, and the request it was serving ended much later with another error (%s) instead of the fault-free result", desc.c_str(), o.fail_site.c_str(), o.r1.c_str());
 			else if (o.r1.compare(0, 10, "SWALLOWED:") == 0) K.count("outcome.late_error_under_several_failures");
 			else if (!r1_err && o.r1 != base) K.fail("C19", "wrong-result-after-failed-allocation", std::string(cn) + "@" + o.fail_site, "%s: with allocation(s) failing the operation reported success with another result than fault-free (%s vs %s)", desc.c_str(), o.r1.substr(0, 60).c_str(), base.substr(0, 60).c_str());
